@@ -35,26 +35,26 @@ type GenCfg struct {
 	MaxTotal int // budget of generated statements per program (0 = 40)
 	// weights of statement kinds
 	WLine, WOptions, WIf, WSet, WDeclare, WJump, WJumpE, WStop, WCall, WCommand, WWait, WFault int
-	NVars                                                                              [3]int // numbers, booleans, strings
-	NJVars                                                                             int    // string variables that hold node titles
-	Probes                                                                             bool   // pn/pb/ps/pn2 host functions in expressions
-	Visited                                                                            bool   // visited()/visited_count() in expressions
-	Random                                                                             bool   // dice/random/random_range (C09 only)
-	ExprDepth                                                                          int
-	InlinePct                                                                          int // chance of inline expressions in a line
-	TagPct                                                                             int
-	CondPct                                                                            int // chance an option carries a condition
-	Handlers                                                                           []HandlerSpec
-	EnterProbe                                                                         bool // <<call enter("N")>> first in every node (C11)
-	CountLines                                                                         bool // lines render every node's counters (C11)
-	IllTypedSets                                                                       int  // percentage of set statements drawn without regard to types (C03)
-	Faults                                                                             int  // max fault sites (C06)
-	MarkupLines                                                                        bool // C14: lines carry markup chunks
-	WaitVals                                                                           []float64
-	NonASCII                                                                           bool
-	NoDeclarePrelude                                                                   bool
-	TrackingPct                                                                        int
-	VarLines                                                                           bool // C03: lines render the pool variables
+	NVars                                                                                      [3]int // numbers, booleans, strings
+	NJVars                                                                                     int    // string variables that hold node titles
+	Probes                                                                                     bool   // pn/pb/ps/pn2 host functions in expressions
+	Visited                                                                                    bool   // visited()/visited_count() in expressions
+	Random                                                                                     bool   // dice/random/random_range (C09 only)
+	ExprDepth                                                                                  int
+	InlinePct                                                                                  int // chance of inline expressions in a line
+	TagPct                                                                                     int
+	CondPct                                                                                    int // chance an option carries a condition
+	Handlers                                                                                   []HandlerSpec
+	EnterProbe                                                                                 bool // <<call enter("N")>> first in every node (C11)
+	CountLines                                                                                 bool // lines render every node's counters (C11)
+	IllTypedSets                                                                               int  // percentage of set statements drawn without regard to types (C03)
+	Faults                                                                                     int  // max fault sites (C06)
+	MarkupLines                                                                                bool // C14: lines carry markup chunks
+	WaitVals                                                                                   []float64
+	NonASCII                                                                                   bool
+	NoDeclarePrelude                                                                           bool
+	TrackingPct                                                                                int
+	VarLines                                                                                   bool // C03: lines render the pool variables
 }
 
 type gen struct {
@@ -357,7 +357,31 @@ func (g *gen) lineS(isOption bool) *LineS {
 	return l
 }
 
-func (g *gen) line() *Stmt { return &Stmt{K: sLine, Line: g.lineS(false)} }
+func (g *gen) line() *Stmt {
+	if g.cfg.Random && g.tp.Chance(45, "randline") {
+		return g.randLine()
+	}
+	return &Stmt{K: sLine, Line: g.lineS(false)}
+}
+
+// randLine renders a random built-in next to its bounds, so the range can be checked from the text:
+// "RD <sides> <value>", "RR <lo> <hi> <value>", "RF <value>".
+func (g *gen) randLine() *Stmt {
+	g.lineSeq++
+	l := &LineS{}
+	switch g.tp.Int(0, 2, "randline") {
+	case 0:
+		n := []int{1, 2, 6, 20, 100, 1000000}[g.tp.Int(0, 5, "sides")]
+		l.Parts = []Part{{Text: fmt.Sprintf("RD %d ", n)}, {E: &Expr{K: eCall, S: "dice", A: []*Expr{numLit(float64(n))}}}}
+	case 1:
+		lo := g.tp.Int(-20, 20, "lo")
+		hi := lo + []int{0, 1, 2, 9, 1000}[g.tp.Int(0, 4, "span")]
+		l.Parts = []Part{{Text: fmt.Sprintf("RR %d %d ", lo, hi)}, {E: &Expr{K: eCall, S: "random_range", A: []*Expr{numLit(float64(lo)), numLit(float64(hi))}}}}
+	default:
+		l.Parts = []Part{{Text: "RF "}, {E: &Expr{K: eCall, S: "random"}}}
+	}
+	return &Stmt{K: sLine, Line: l}
+}
 
 func (g *gen) options(depth int) *Stmt {
 	n := g.tp.Int(1, 4-min(depth, 2), "nopts")
